@@ -15,7 +15,7 @@ MODULES = ["XpmVerif.Properties.C03"]
 
 
 def prove(ctx):
-    msgs = [hashflags.generate(common.REPO, common.LEAN)]
+    msgs = [hashflags.generate(common.REPO, common.LEAN, probe=identlib.loop_flag_probe(ctx))]
     common.check_proofs(ctx, MODULES, translate_msgs=msgs)
 
 
